@@ -84,8 +84,17 @@ def part_scalar(ctx):
         re_, im_ = [dy(), dy()], [dy(), dy()]
         us = [rng.randint(0, 255) / 256, rng.randint(0, 255) / 256]
         it_ = iter(us)
-        with Patch(np_random_sample=lambda *x: next(it_)):
-            z = ComplexRectangle(re=re_, im=im_).gen_sample()
+        def scripted(*size):
+            # honours a size argument (one draw per requested number), so that a sampler may ask for its two numbers in one call
+            if size and size[0] is not None:
+                return np.array([next(it_) for _ in range(int(np.prod(size[0])))]).reshape(size[0])
+            return next(it_)
+        try:
+            with Patch(np_random_sample=scripted):
+                z = ComplexRectangle(re=re_, im=im_).gen_sample()
+        except Exception as exc:
+            ctx.violation('ComplexRectangle.gen_sample raises %s with scripted draws' % type(exc).__name__, {'part': 'rect', 're': re_, 'im': im_, 'u': us}, impl=str(exc)[:100])
+            continue
         if not (min(re_) <= z.real <= max(re_) and min(im_) <= z.imag <= max(im_)):
             ctx.violation('ComplexRectangle sample outside the rectangle', {'part': 'rect', 're': re_, 'im': im_, 'u': us}, impl=repr(z))
         want = complex(min(re_) + (max(re_) - min(re_)) * us[0], min(im_) + (max(im_) - min(im_)) * us[1])
